@@ -387,7 +387,7 @@ def body(chk):
     for n in ((1, 2, 3, 4, 5) if quick else (1, 2, 3, 4, 5, 6, 7)):
         run_lane(chk, Raw, (n,), bounds={'string bytes': n, 'alphabet': 'all 256 byte values'}, selftest=(n == 5),
                  need_regions=(('accepted/ref-accepts', 'rejected/ref-rejects') if n >= 3 else ()))
-    p = (2, 2) if quick else (3, 3)
+    p = (2, 2) if quick else tier_param('C08G', (3, 3))
     run_lane(chk, Grammar, p, bounds={'value bytes': f'<= {p[0]} per value, each raw or \\hh (hex case symbolic)', 'attribute description': f'descr of {p[1]} chars | d.d | a;o', 'shapes': Grammar.SHAPES},
              selftest=False, need_regions=tuple(Grammar.SHAPES))
     chk.assumptions += [
